@@ -98,6 +98,8 @@ static void fill1_family(vt::rng& g, bool thorough)
                     xs.push_back(tagc("nan")); xs.push_back(tagc("+inf")); xs.push_back(tagc("-inf"));
                     // the floating-point neighbours of every edge, in particular of the two ends of the range
                     for (long long j = 0; j <= bx; ++j) { xs.push_back(nearby(b.xmin + j * b.sx, true)); xs.push_back(nearby(b.xmin + j * b.sx, false)); }
+                    // minus zero is zero: on the lower end of a range that starts at zero
+                    if (b.xmin == 0) { coord nz = fin(0); nz.v = -0.0L; xs.push_back(nz); }
                     xs.push_back(far(1e30L)); xs.push_back(far(-1e30L)); xs.push_back(far(1.8446744073709552e19L)); xs.push_back(far(9.3e18L));
                     std::vector<coord> ys{fin(b.ymin + b.sy / 2)};
                     if (by != 0)
